@@ -136,7 +136,7 @@ def havoc_state(c, diag="false"):
             x.cell.set(z3.Array(f"X{b}_{k}", z3.IntSort(), z3.RealSort()), "havoc")
             d["X"].append(x.v)
         for k, dg in enumerate(kf.is_factor_matrices_diagonal):
-            if diag == "sym":
+            if diag == "sym" or (diag == "sym0" and b == 0):
                 v = z3.Int(f"diag{b}_{k}")
                 assume(z3.Or(v == 0, v == 1))
             else:
@@ -151,7 +151,10 @@ def havoc_state(c, diag="false"):
     for x in cnt:
         assume(x.t >= 0)
         assume(x.t <= c["tol"].t)  # invariant: a counter above the tolerance has already raised
-    lst._masked_failed_amortized_computation_counter_list = list(cnt)
+    # keep the representation the implementation chose for a counter (plain int, or a shared one-element holder)
+    old = lst._local_failed_amortized_computation_counter_list
+    holders = bool(old) and isinstance(old[0], list)
+    lst._masked_failed_amortized_computation_counter_list = [[x] for x in cnt] if holders else list(cnt)
     lst._local_failed_amortized_computation_counter_list = lst._masked_failed_amortized_computation_counter_list
     c["pre"], c["bc2_prev"], c["cnt_pre"] = pre, bc2, cnt
     return c
